@@ -53,7 +53,7 @@ def run(tier, scratch, t0, replay=None):
         a = {"isolate": isolate, "seeds": parts[i], "seed": K.get_seed(), "part": i, "workdir": wd,
              "prefix_limit": 400 if quick else 16384, "positions": 90 if quick else 16384, "insdel": 30 if quick else 400,
              "nonbytecode": i == 0 or hosts_for_part[i] != K.MAIN_HOST, "adversarial": i in (0, 1, 2), "big": not quick}
-        return K.run_agent(hosts_for_part[i], "hostile", a, scratch.root, "hostile-%d" % i, timeout=6000)
+        return K.run_agent(hosts_for_part[i], "hostile", a, scratch.root, "hostile-%d%s" % (i, "i" if isolate else ""), timeout=2400 if tier == "quick" else 14000)
 
     outs = K.pmap(job, list(range(nparts)))
     for i, (out, err, so, se) in enumerate(outs):
@@ -84,6 +84,9 @@ def run(tier, scratch, t0, replay=None):
         res.merge_agent(sc)
         res.extra["scaling_observations"] = sc.get("samples", [])
     res.extra["seed_files"] = len(seeds)
+    if res.counters.get("c11_case_watchdog_fired_inconclusive"):
+        res.inconclusive.append("per-case wall-clock watchdog fired %d time(s) on a host without a step counter" %
+                                res.counters["c11_case_watchdog_fired_inconclusive"])
     if not any(k.startswith("outcome:ImportError") for k in res.counters):
         res.inconclusive.append("no hostile case was refused: generator ineffective")
     return K.finish(res, tier, "fault_enumeration", RULE, t0,
